@@ -400,6 +400,7 @@ func init() {
 			name                  string
 			scid, dcid, minsz     int
 			emptyISCID, qtp, keys bool
+			mu, mb                int
 		}
 		var ps []parrot
 		var bad error
@@ -439,6 +440,24 @@ func init() {
 				emptyISCID: strings.Contains(r, "tls.InitialSourceConnectionID([]byte{})"),
 				qtp:        strings.Contains(r, "&tls.QUICTransportParametersExtension{"),
 				keys:       strings.Contains(r, "&tls.KeyShareExtension{")}
+			callArg := func(name string) int {
+				v := -1
+				for _, c := range findCalls(body, name) {
+					if len(c.Args) == 1 {
+						if bl, ok := c.Args[0].(*ast.BasicLit); ok && bl.Kind == token.INT {
+							if iv, err := strconv.ParseInt(bl.Value, 0, 64); err == nil {
+								v = int(iv)
+							}
+						}
+					}
+				}
+				return v
+			}
+			pr.mu, pr.mb = callArg("InitialMaxStreamsUni"), callArg("InitialMaxStreamsBidi")
+			if pr.mu < 0 || pr.mb < 0 {
+				bad = fmt.Errorf("QUICID2Spec: a case has no literal tls.InitialMaxStreamsUni/Bidi")
+				return false
+			}
 			for _, l := range cc.List {
 				pr.name = render(fset, l)
 				ps = append(ps, pr)
@@ -452,14 +471,15 @@ func init() {
 			return fmt.Errorf("QUICID2Spec: no cases found")
 		}
 		w.P("/-- u_parrot.go `QUICID2Spec`: (case label, SrcConnIDLength, DestConnIDLength, UDPDatagramMinSize,")
-		w.P("    lists an empty tls.InitialSourceConnectionID, has a QUICTransportParametersExtension, has a KeyShareExtension) -/")
-		w.P("def parrots : List (String × Nat × Nat × Nat × Bool × Bool × Bool) := [")
+		w.P("    lists an empty tls.InitialSourceConnectionID, has a QUICTransportParametersExtension, has a KeyShareExtension,")
+		w.P("    initial_max_streams_uni, initial_max_streams_bidi) -/")
+		w.P("def parrots : List (String × Nat × Nat × Nat × Bool × Bool × Bool × Nat × Nat) := [")
 		for i, pr := range ps {
 			sep := ","
 			if i == len(ps)-1 {
 				sep = ""
 			}
-			w.P("  (%q, %d, %d, %d, %s, %s, %s)%s", pr.name, pr.scid, pr.dcid, pr.minsz, leanBool(pr.emptyISCID), leanBool(pr.qtp), leanBool(pr.keys), sep)
+			w.P("  (%q, %d, %d, %d, %s, %s, %s, %d, %d)%s", pr.name, pr.scid, pr.dcid, pr.minsz, leanBool(pr.emptyISCID), leanBool(pr.qtp), leanBool(pr.keys), pr.mu, pr.mb, sep)
 		}
 		w.P("]")
 		return nil
